@@ -315,7 +315,7 @@ func runC18(c *Ctx) {
 		r.Unresolved("cancel/removes-from-heap", pkg+".Queue.removeElement", "method not found")
 	} else {
 		rem := f.Find(heapCall("Remove"))
-		live := f.RelEdges(func(rel Rel) bool {
+		live := f.RelEdgesAt(func(rel Rel) bool {
 			return rel.Op == "!=" && ((rel.L == "-1" && strings.HasSuffix(rel.R, ".Index()")) || (rel.R == "-1" && strings.HasSuffix(rel.L, ".Index()")))
 		})
 		if len(rem) != 1 {
@@ -326,7 +326,7 @@ func runC18(c *Ctx) {
 			cl := f.nodeAt(rem[0])
 			okIdx := false
 			ast.Inspect(cl, func(n ast.Node) bool {
-				if c2, ok := n.(*ast.CallExpr); ok && exprKey(c2.Fun) == "heap.Remove" && len(c2.Args) == 2 && strings.HasSuffix(exprKey(c2.Args[1]), ".Index()") {
+				if c2, ok := n.(*ast.CallExpr); ok && exprKey(c2.Fun) == "heap.Remove" && len(c2.Args) == 2 && strings.HasSuffix(f.KeyAt(c2.Args[1], rem[0]), ".Index()") {
 					okIdx = true
 				}
 				return true
@@ -379,30 +379,94 @@ func runC18(c *Ctx) {
 	// (5) executor
 	checkGoWaitGroup(r, p, "wg/add-before-go", pkg, p.FuncDecl(pkg, "Executor", "startBackgroundWorkers"), 1)
 	if fd := p.FuncDecl(pkg, "Executor", "startBackgroundWorkers"); fd != nil {
+		// the worker goroutine (literal or named method): it has a loop every iteration of which polls
+		// the queue (blocking), the loop is left only on the edge on which the polled entry is nil, and
+		// every path from there to the end passes shutdownWG.Done()
 		ok := false
 		ast.Inspect(fd.Body, func(n ast.Node) bool {
-			lit, isLit := n.(*ast.FuncLit)
-			if !isLit {
+			gs, isGo := n.(*ast.GoStmt)
+			if !isGo {
 				return true
 			}
-			for i, st := range lit.Body.List {
-				fs, isFor := st.(*ast.ForStmt)
-				if !isFor || fs.Cond == nil {
-					continue
+			body, _ := callableBody(p, info, gs.Call.Fun)
+			if body == nil {
+				return true
+			}
+			wf := newFuncCFG(p, info, body, "executor worker")
+			isPoll := func(m ast.Node) bool {
+				cl, isCall := m.(*ast.CallExpr)
+				return isCall && strings.HasSuffix(exprKey(cl.Fun), ".queue.Poll") && len(cl.Args) == 1 && exprKey(cl.Args[0]) == "true"
+			}
+			isDone := func(m ast.Node) bool {
+				cl, isCall := m.(*ast.CallExpr)
+				return isCall && strings.HasSuffix(exprKey(cl.Fun), ".shutdownWG.Done")
+			}
+			// edges on which the polled entry is known to be nil: the tested variable holds, on every
+			// definition that reaches the test, the result of a Poll
+			var nilEdges []Edge
+			wf.forEachEdgeFact(func(e Edge, eb *cfg.Block, ft fact) {
+				x, nonNilOnTrue, isTest := nilTest(info, ft.Atom)
+				if !isTest || nonNilOnTrue == ft.Pol {
+					return
 				}
-				rel, isRel := relOf(fs.Cond)
-				if isRel && rel.Op == "!=" && (rel.L == "nil" || rel.R == "nil") && i+1 < len(lit.Body.List) {
-					if es, isES := lit.Body.List[i+1].(*ast.ExprStmt); isES && strings.HasSuffix(exprKey(es.X), ".shutdownWG.Done()") {
-						ok = true
+				ept := Point{eb, len(eb.Nodes) - 1}
+				if strings.Contains(wf.KeyAt(x, ept), ".queue.Poll(") {
+					nilEdges = append(nilEdges, e)
+					return
+				}
+				if o := objOfIdent(info, x); o != nil {
+					defs, fromEntry := wf.ReachingDefs(ept, o)
+					all := len(defs) > 0 && !fromEntry
+					for _, d := range defs {
+						if d.Rhs == nil || !isPoll(ast.Unparen(d.Rhs)) {
+							all = false
+						}
+					}
+					if all {
+						nilEdges = append(nilEdges, e)
 					}
 				}
+			})
+			nilSet := map[Edge]bool{}
+			for _, e := range nilEdges {
+				nilSet[e] = true
+			}
+			polls := wf.Find(isPoll)
+			if len(polls) == 0 || len(nilEdges) == 0 {
+				return true
+			}
+			good := true
+			// after a poll, the exit is reachable only through a nil edge ...
+			for _, pp := range polls {
+				if _, found := wf.reach(Point{pp.B, pp.I + 1}, &searchOpts{AvoidEdge: func(e Edge) bool { return nilSet[e] }, AvoidNode: isPoll}, func(pt Point, atExit bool) bool { return atExit }); found {
+					good = false
+				}
+			}
+			// ... and from a nil edge the exit only through Done, without polling again
+			for _, e := range nilEdges {
+				if _, found := wf.reach(Point{e.From.Succs[e.Succ], 0}, &searchOpts{AvoidNode: isDone}, func(pt Point, atExit bool) bool { return atExit }); found {
+					good = false
+				}
+				if _, found := wf.reach(Point{e.From.Succs[e.Succ], 0}, nil, func(pt Point, atExit bool) bool { return !atExit && containsMatch(wf.nodeAt(pt), isPoll) }); found {
+					good = false
+				}
+			}
+			// a non-nil entry leads back to a poll (the loop)
+			loops := false
+			for _, pp := range polls {
+				if _, found := wf.reach(Point{pp.B, pp.I + 1}, &searchOpts{AvoidEdge: func(e Edge) bool { return nilSet[e] }}, func(pt Point, atExit bool) bool { return !atExit && containsMatch(wf.nodeAt(pt), isPoll) }); found {
+					loops = true
+				}
+			}
+			if good && loops {
+				ok = true
 			}
 			return true
 		})
 		if ok {
 			r.Pass("executor/worker-loop", pkg+".Executor.startBackgroundWorkers", p.posStr(fd.Pos()), "worker polls until the empty value, then signals Done")
 		} else {
-			r.Fail("executor/worker-loop", pkg+".Executor.startBackgroundWorkers", p.posStr(fd.Pos()), "the worker must loop `for e := Poll(true); e != nil; e = Poll(true)` and call shutdownWG.Done() afterwards")
+			r.Fail("executor/worker-loop", pkg+".Executor.startBackgroundWorkers", p.posStr(fd.Pos()), "the worker must poll the queue in a loop that is left exactly when the polled entry is nil, and call shutdownWG.Done() afterwards")
 		}
 	}
 	if f := p.CFGOf(pkg, "Executor", "Shutdown"); f != nil {
